@@ -31,6 +31,7 @@ ASSUMPTIONS = [
     "moment tolerance 1e-9 scaled by (|mean|+std)/std (cancellation when offsets dwarf the spread)",
     "rescaling invariance is judged with atol=0 so that the rescaled variance is not rejected",
 ]
+RULE = RULE + " " + forms.RULE_SUFFIX
 
 
 def gen(rng, tier, index):
